@@ -48,6 +48,7 @@ class Contract:
         self.provider_requires = dict(kw.pop("provider_requires", {}))  # provider name -> [exprs over idx, args, locals]
         self.provider_hints = dict(kw.pop("provider_hints", {}))        # provider name -> [ghost statements]
         self.pure_calls = list(kw.pop("pure_calls", []))   # method names assumed pure & provider-free (lenient only)
+        self.call_requires = dict(kw.pop("call_requires", {}))  # callee qual -> [exprs] extra call-site obligations
         self.call_models = dict(kw.pop("call_models", {}))  # "self.f" -> spec expression for the value of self.f(...)
         self.yield_seq = kw.pop("yield_seq", False)       # generator whose contract speaks about the whole yield sequence
         self.variants = list(kw.pop("variants", []))      # [{name, params, requires, ensures, raises, ...}] type cases
@@ -106,6 +107,8 @@ class Registry:
         d.isinstance_map.update(v.get("isinstance_map", {}))
         if "returns" in v:
             d.returns = v["returns"]
+        if v.get("aliases"):
+            d.aliases = dict(v["aliases"])
         d.variants = []
         d.variant_name = v["name"]
         return d
